@@ -10,6 +10,8 @@ uncancel around absorbed AnyIO cancellations).
 
 from __future__ import annotations
 
+import itertools
+
 from .. import native_twins, treecheck, treefam
 
 PROPERTY = "C05"
@@ -33,7 +35,7 @@ SHARD_TIMEOUT = {"quick": 300, "thorough": 1500}
 
 def all_cases(tier: str, seed: int):  # noqa: ANN201
     yield from native_twins.cases()
-    yield from treecheck.cases("c05", tier, seed, 4000, 60000, extra=treefam.scope_histories)
+    yield from treecheck.cases("c05", tier, seed, 4000, 60000, extra=lambda: itertools.chain(treefam.scope_histories(), treefam.nested_handover()))
 
 
 def shards(tier: str, seed: int) -> list[dict]:
